@@ -88,6 +88,9 @@ class Check(DiffCheck):
                    'Timeout arithmetic does not saturate (m_timeout < 2^63 or exactly -1 = never)']
     partial_note = ''
 
+    known_hits = {}
+    known_first = {}
+
     def build_impl(self):
         exe, log = cxx_build(self.id, ['harness/C10/harness.cpp'], extra='-rdynamic', libphoton=True)
         if not exe: raise RuntimeError(log)
@@ -101,6 +104,7 @@ class Check(DiffCheck):
             cs += [l.strip() for l in open(cp) if l.strip() and not l.startswith('#')]
         cs += self.gen_D(tier, rng)
         cs += self.gen_E(tier, rng)
+        cs += self.gen_R(tier, rng)
         return list(dict.fromkeys(cs))
 
     def gen_D(self, tier, rng):
@@ -258,6 +262,19 @@ class Check(DiffCheck):
             else: steps.append('x%d' % rng.choice(fds))
         return 'E ' + ','.join(steps)
 
+    # ------------------------------------------------------------------ part 3: real kernel sockets (search oracle only)
+    def gen_R(self, tier, rng):
+        cs = []
+        n = 10 if tier == 'quick' else 120
+        for i in range(n):
+            eng = 'epoll' if i % 3 != 2 else 'epollng'
+            tr = 'u' if i % 2 == 0 else 't'
+            total = rng.choice([0, 1, 5000, 40000, 150000, 300000]) if tier == 'quick' else rng.choice([0, 1, 5000, 40000, 300000, 2000000])
+            shut = -1 if rng.random() < 0.5 else rng.randrange(0, total + 1)
+            cs.append('R %s %s %d %d %d %d %d %d' % (eng, tr, rng.randrange(1 << 30), rng.choice([1, 2, 3]), total,
+                                                     rng.choice([1024, 2048, 4096, 16384]), shut, 1 if i % 4 == 0 else 0))
+        return cs
+
     # ------------------------------------------------------------------ parsing
     def _parse_D(self, case):
         f = case.split(' ')
@@ -275,6 +292,11 @@ class Check(DiffCheck):
             if op != 'sendfile' and any(l == 0 for l in lens) and total > 0: return True
             first = next((int(s[1:]) for s in sys if s[0] == 'r'), None)
             return first is not None and 0 < first < total
+        if case[0] == 'E':
+            st = case.split(' ')[1].split(',')
+            ws = [x[1:].split(':') for x in st if x[0] == 'w']
+            fds = [w[1] for w in ws]
+            return len(set(fds)) < len(fds) or sum(1 for x in st if x[0] == 'r') > 16 or any(x[0] == 'c' for x in st)
         return True
 
     def category(self, case):
@@ -287,16 +309,36 @@ class Check(DiffCheck):
             if 'r0' in sys: tags.append('eof')
             if tmo is not None: tags.append('deadline')
             return 'D:' + '+'.join(tags)
+        if case[0] == 'E':
+            st = case.split(' ')[1].split(',')
+            if any(x[0] in 'adc' for x in st): return 'E:cascading' + ('+oneshot' if any(x[0] == 'a' and int(x.split(':')[1]) & 32768 for x in st) else '')
+            ws = [x[1:].split(':') for x in st if x[0] == 'w']
+            tags = ['E:master']
+            if len(set((w[1]) for w in ws)) < len(ws): tags.append('shared-fd')
+            if any(w[3] != 'inf' for w in ws): tags.append('timeout')
+            if any(x[0] == 'i' for x in st): tags.append('interrupt')
+            if len(ws) > 16: tags.append('batch>16')
+            return '+'.join(tags)
         return case.split(' ', 1)[0]
 
     def known_class(self, case):
         return None
+
+    def extra(self, ctx):
+        # known finding F20 is recognised by its exact pattern inside oracle_E (not by a case class), so that any other
+        # violation in the same case is still reported
+        self.extra_coverage = dict(known_finding_hits=dict(self.known_hits), known_finding_first_case=dict(self.known_first))
+        if self.known_hits.get('F20') and not any(f.get('id') == 'F20' for f in load_known_findings(self.id)):
+            print('KNOWN-FINDING: property=C10 F20 EPOLLHUP consumes the one-shot arming of an EVENT_ERROR waiter without waking it '
+                  '(%d cases, e.g. "%s")' % (self.known_hits['F20'], self.known_first['F20']))
+        return []
 
     # ------------------------------------------------------------------ the property, on the implementation's output
     def oracle(self, case, out):
         if out.startswith('CRASH'): return 'implementation crashed: ' + out
         if case[0] == 'D': return self.oracle_D(case, out)
         if case[0] == 'E': return self.oracle_E(case, out)
+        if case[0] == 'R': return None if out == 'R ok' else 'real-kernel socket run: ' + out
         return None
 
     def oracle_D(self, case, out):
@@ -414,6 +456,7 @@ class Check(DiffCheck):
         m = re.match(r'log=(\S*) tab=(\S*) size=(\d+) kern=(\S*) batch=(\S*) blocked=(\S*) now=(\d+)$', out)
         if not m: return 'unparsable output: %r' % out[:200]
         steps = case.split(' ')[1].split(',')
+        self._rep = {}
         chunks = m.group(1).split('|')
         init, chunks = chunks[0], chunks[1:]
         if len(chunks) != len(steps): return 'log has %d step sections for %d steps' % (len(chunks), len(steps))
@@ -425,6 +468,7 @@ class Check(DiffCheck):
         kern = {}             # fd -> [events, armed]   reconstructed from the log
         reg = {}              # cascading: (fd, bit) -> data
         seen = set()
+        tainted = set()
         def apply_kernel(ev):
             if ev.startswith('C'):
                 head, res = ev[1:].split('='); op, fd, e = [int(x) for x in head.split(',')]
@@ -439,6 +483,7 @@ class Check(DiffCheck):
         for ev in [e for e in init.split(';') if e]: apply_kernel(ev)
         for tok, chunk in zip(steps, chunks):
             evs = [e for e in chunk.split(';') if e]
+            readable = any(k[1] and (ready.get(fd, 0) & ((k[0] & (1 | 4 | 8192)) | 8 | 16)) for fd, k in kern.items())
             res = {}
             reported = {}
             for ev in evs:
@@ -458,24 +503,25 @@ class Check(DiffCheck):
             if c == 'w':
                 t, fd, d, tmo = A(0), A(1), A(2), A(3)
                 seen.add(t)
+                dl = None if tmo < 0 else now + tmo
                 if fd < 0 or (d & (d - 1)): expect[t] = (-1, 22)
+                elif fd in tainted:
+                    if t in res: expect[t] = res[t]
+                    else: wait[t] = dict(fd=fd, d=d, dl=dl, orphan=True, held=True)
                 elif d == 0:
                     if t not in res: return 'wait_for_fd(fd, 0) did not return'
                     for w in wait.values():
-                        if w['fd'] == fd: w['orphan'] = True
+                        if w['fd'] == fd: w['orphan'] = True; tainted.add(fd)    # interests removed under a waiter: outside the domain
                     expect[t] = res[t]
-                elif any(w['fd'] == fd and w['d'] == d and not w['orphan'] for w in wait.values()):
+                elif any(w['fd'] == fd and w['d'] == d and w['held'] for w in wait.values()):
                     expect[t] = (-1, 114)
-                elif any(w['fd'] == fd and w['d'] == d for w in wait.values()):
-                    expect[t] = res.get(t, (-1, 114))     # same slot as an orphaned waiter: either outcome is acceptable
-                    if t not in res: wait[t] = dict(fd=fd, d=d, dl=None if tmo < 0 else now + tmo, orphan=True)
                 elif tmo == 0: expect[t] = (-1, 110)
-                else: wait[t] = dict(fd=fd, d=d, dl=None if tmo < 0 else now + tmo, orphan=False)
+                else: wait[t] = dict(fd=fd, d=d, dl=dl, orphan=False, held=True)
             elif c == 'r': ready[A(0)] = A(1)
             elif c == 'x':
                 fd = A(0); ready[fd] = 0; kern.pop(fd, None)
                 for w in wait.values():
-                    if w['fd'] == fd: w['orphan'] = True
+                    if w['fd'] == fd: w['orphan'] = True; tainted.add(fd)    # closed under a waiter: outside the property's domain
             elif c == 'p':
                 should = [t for t, w in wait.items() if not w['orphan'] and (ready.get(w['fd'], 0) & dirbits[w['d']])]
                 nfd = len(set(wait[t]['fd'] for t in should))
@@ -483,6 +529,7 @@ class Check(DiffCheck):
                     if ret == 0:
                         w = wait.get(t)
                         if w is None: return 'thread %d woken but it was not waiting' % t
+                        if w['fd'] in tainted: continue
                         if not (reported.get(w['fd'], 0) & dirbits[w['d']]):
                             return 'thread %d (fd %d dir %d) woken by an event that is not for its descriptor/direction (kernel reported %s)' % (t, w['fd'], w['d'], reported)
                         if not (ready.get(w['fd'], 0) & dirbits[w['d']]) and not w['orphan']:
@@ -501,6 +548,7 @@ class Check(DiffCheck):
                 for t, w in wait.items():
                     if w['dl'] is not None and w['dl'] <= now: expect[t] = (-1, 110)
             elif c in 'adc':
+                if c == 'c' and not readable: now += A(1)      # the epoll fd was not readable: the call timed out
                 r = self._oracle_EC_step(c, a, evs, ready, reg, kern)
                 if r: return r
             if c in 'wpitkxr':
@@ -514,6 +562,14 @@ class Check(DiffCheck):
                 for t, w in wait.items():
                     if w['orphan']: continue
                     k = kern.get(w['fd'])
+                    rep = reported.get(w['fd'], 0)
+                    if w['d'] == 4 and k is not None and not k[1] and (rep & 16) and not (rep & 8):
+                        # known finding F20: EPOLLHUP (always reported by the kernel) consumes the one-shot arming of an
+                        # EVENT_ERROR waiter without waking it (HUP is not in ERRBIT) and nothing re-arms the descriptor
+                        w['orphan'] = True
+                        self.known_hits['F20'] = self.known_hits.get('F20', 0) + 1
+                        self.known_first.setdefault('F20', case)
+                        continue
                     if k is None or not k[1] or (k[0] & evbits[w['d']]) != evbits[w['d']] or not (k[0] & (1 << 30)):
                         return 'after step %s: thread %d waits for fd %d dir %d but the kernel entry is %s (not armed for it)' % (tok, t, w['fd'], w['d'], k)
         blocked = sorted(int(x) for x in m.group(6).split(',') if x)
@@ -536,19 +592,26 @@ class Check(DiffCheck):
             if call == 'D=0':
                 for b in (1, 2, 4):
                     if A(1) & b: reg.pop((A(0), b), None)
+                if not any(fd == A(0) for (fd, b) in reg): self._rep.pop(A(0), None)
         else:
             mm = re.match(r'V=(-?\d+)\[(.*)\]$', call)
             n = int(mm.group(1)); out = [int(x) for x in mm.group(2).split(',') if x]
             if n != len(out): return 'wait_for_events returned %d but wrote %d data' % (n, len(out))
             if n > A(0): return 'wait_for_events wrote %d data into %d slots' % (n, A(0))
-            allowed = [d for (fd, b), (d, os) in reg.items() if ready.get(fd, 0) & dirbits[b]]
+            # (an event fetched into the 16-slot batch may be delivered by a later call: batch_boundary)
+            for e in evs:
+                if e.startswith('P['):
+                    for it in e[2:-1].split(','):
+                        if it:
+                            fd, m2 = [int(x) for x in it.split(':')]; self._rep[fd] = self._rep.get(fd, 0) | m2
+            allowed = [d for (fd, b), (d, os) in reg.items() if (ready.get(fd, 0) | self._rep.get(fd, 0)) & dirbits[b]]
             for d in out:
                 if d not in allowed: return 'wait_for_events delivered data %d which has no ready registered interest' % d
             # one-shot interests are consumed by delivery
             cnt = {}
             for d in out: cnt[d] = cnt.get(d, 0) + 1
             for (fd, b), (d, os) in list(reg.items()):
-                if os and (ready.get(fd, 0) & dirbits[b]) and cnt.get(d, 0) > 0:
+                if os and ((ready.get(fd, 0) | self._rep.get(fd, 0)) & dirbits[b]) and cnt.get(d, 0) > 0:
                     cnt[d] -= 1; reg.pop((fd, b))
         return None
 
